@@ -6,7 +6,8 @@ Model of `src/special_points_finder.rs`: `arc_special_points` and everything it 
 `polygon_coverage(.., exact_solution = true)` adds to the approximate mode.
 
 Generic in `Num`; at `Float` the operation order of the Rust source is mirrored exactly (bit-exact, checked against the
-crate in both profiles).  Outer `Option`: `none` = panic (`unwrap()` on `None`, `unreachable!()`, and, when
+crate in both profiles on 311 526 arcs through
+`cdshealpix::verif_hooks::arc_special_points`).  Outer `Option`: `none` = panic (`unwrap()` on `None`, `unreachable!()`, and, when
 `debug = true`, a failing `debug_assert!`).  Inner `Option` (where present) is the `Option` of the Rust signature.
 Core Lean only.
 -/
@@ -19,9 +20,6 @@ variable {α : Type} [Num α]
 
 /-- `(x, y, z)` of a `Vect3` / `UnitVect3` -/
 abbrev V3 (α : Type) := α × α × α
-
-/-- `debug_assert!(c)` -/
-def dassert (debug c : Bool) : Option Unit := if debug && !c then none else some ()
 
 /-- `x == 0.0` (true for `-0.0`, false for NaN) -/
 def eqZero (x : α) : Bool := Num.le x (Num.zero : α) && Num.le (Num.zero : α) x
